@@ -17,6 +17,8 @@ func main() {
 	switch os.Args[1] {
 	case "check":
 		os.Exit(cmdCheck(os.Args[2:]))
+	case "replay":
+		os.Exit(cmdReplay(os.Args[2:]))
 	default:
 		fmt.Fprintln(os.Stderr, "unknown command", os.Args[1])
 		os.Exit(2)
@@ -33,6 +35,7 @@ func cmdCheck(args []string) int {
 	only := fs.String("func", "", "only units whose name contains this")
 	dump := fs.String("dump", "", "dump SMT of obligations whose name contains this")
 	noEvidence := fs.Bool("no-evidence", false, "do not write evidence / replay files")
+	noReplay := fs.Bool("no-replay", false, "do not run replay drivers on failed obligations")
 	fs.Parse(args)
 	if t := os.Getenv("VERIF_TIER"); t == "quick" || t == "thorough" {
 		*tier = t
@@ -44,6 +47,7 @@ func cmdCheck(args []string) int {
 	t0 := time.Now()
 	e := newEngine(*repo, *verif)
 	e.verbose = *verbose
+	e.noReplay = *noReplay
 	if err := e.discover(); err != nil {
 		fmt.Println("discover:", err)
 		return 2
